@@ -42,7 +42,7 @@ SPECS = [
          ("stepRemoveRoot", 420, "$remove"), ("stepMinMax", 240, "$min"), ("stepElements", 300, "$elements"),
          ("stepFold", 300, "$fold"), ("stepSplit", 420, "$split"), ("stepFilter", 420, "$filter"), ("stepUnion", 420, "$union"),
          ("stepIntersection", 420, "$intersection"), ("stepDiff", 420, "$diff"), ("stepSubset", 420, "$subset"),
-         ("stepCompare", 420, "$compare"), ("stepFromList", 300, "$fromList"), ("stepMap", 420, "$map"),
+         ("stepCompare", 420, "$compare"), ("stepFromList", 300, "$fromList"), ("stepMap", 420, "$map"), ("stepMapClamp", 420, "$map"),
      ]},
 ]
 SPECS.append(
